@@ -16,6 +16,8 @@ import (
 	"fmt"
 	"os"
 	"path/filepath"
+	"sort"
+	"strings"
 	"syscall"
 	"testing"
 
@@ -302,6 +304,23 @@ func (r *runner) refused(step int, x *exp, err error) {
 	}
 }
 
+// listLogs lists the *.wal files of dir in ascending name order (the harness's
+// own listing: the code under test is not trusted for it).
+func listLogs(dir string) []string {
+	des, err := os.ReadDir(dir)
+	if err != nil {
+		return nil
+	}
+	var out []string
+	for _, de := range des {
+		if !de.IsDir() && strings.HasSuffix(de.Name(), ".wal") {
+			out = append(out, de.Name())
+		}
+	}
+	sort.Strings(out)
+	return out
+}
+
 var errClock = errors.New("wall clock did not advance between two log files")
 
 // newWAL creates a fresh log file; the file name is the wall clock in
@@ -309,7 +328,7 @@ var errClock = errors.New("wall clock did not advance between two log files")
 // that does not sort last (clock stepped back) abandons the case — neither is
 // the log's fault.
 func (r *runner) newWAL() (*wal.WAL, error) {
-	before, _ := wal.FindWALFiles(r.dir)
+	before := listLogs(r.dir)
 	var w *wal.WAL
 	var err error
 	for try := 0; try < 10000; try++ {
@@ -321,7 +340,7 @@ func (r *runner) newWAL() (*wal.WAL, error) {
 	if err != nil {
 		return nil, err
 	}
-	after, _ := wal.FindWALFiles(r.dir)
+	after := listLogs(r.dir)
 	if len(after) != len(before)+1 {
 		return nil, fmt.Errorf("NewWAL: %d files before, %d after", len(before), len(after))
 	}
@@ -554,7 +573,7 @@ func runCase(c *Case) (mm *Mismatch) {
 		return r.refusal
 	}
 	// the file count is part of the non-trivial rule: make sure it is what classify() assumes
-	files, _ := wal.FindWALFiles(r.dir)
+	files := listLogs(r.dir)
 	if len(files) != r.files {
 		panic(fmt.Sprintf("harness: %d files on disk, %d created", len(files), r.files))
 	}
